@@ -4,10 +4,24 @@ import schedcheck
 PROPS = ["Props/C03.v", "Props/C01.v", "Props/C06.v"]
 
 
+def with_scenarios(ctx):
+    """sub-slot and team projects with a second and third scenario (no scenario-specific values): every scenario has a
+    ledger of its own and the oracle is applied to each"""
+    import gens
+    out = []
+    for ap in gens.family(ctx, "subslot", ctx.n(50, 400)) + gens.family(ctx, "sdteam", ctx.n(20, 150)):
+        ap["scenario_lines"] = [ctx.rng.choice(['scenario plan "plan" { scenario s1 "s1" }',
+                                                'scenario plan "plan" { scenario s1 "s1" scenario s2 "s2" }'])]
+        ap["_family"] = "scen" + ap["_family"]
+        out.append(ap)
+    return out
+
+
 def run(ctx):
     schedcheck.run(ctx, "C03", PROPS,
                    [("subslot", 200, 2000), ("core", 60, 600), ("alap", 60, 500), ("alapcore", 60, 500), ("sd", 100, 1000), ("sdteam", 80, 800), ("limits", 40, 300), ("teamlimits", 80, 700), ("alapalt", 60, 500), ("taskalapalt", 40, 300)],
                    ["c03"],
                    ["a team is credited per slot with its most efficient member (the code's stated rule); equality is checked to the one-second rounding of reported times",
                     "the theorems cover the cell discipline (kept = min(need, booked), Props/C01) and the whole-slot frame (Props/C06); the efficiency arithmetic itself is checked on the implementation by the oracle"],
-                   "corpus first; efforts in whole slots, fractions of a slot and primes of minutes, efficiencies 0.5-2.0, resolutions 5-60 min, teams (also of mixed efficiency) and alternatives, contention on shared slots, ASAP and ALAP (alternatives also in backward projects and on task-level ALAP tasks)")
+                   "corpus first; efforts in whole slots, fractions of a slot and primes of minutes, efficiencies 0.5-2.0, resolutions 5-60 min, teams (also of mixed efficiency) and alternatives, contention on shared slots, ASAP and ALAP (alternatives also in backward projects and on task-level ALAP tasks); projects with two and three scenarios: the oracle is applied to the ledger of every scenario",
+                   extra_cases=with_scenarios, all_scenarios=True)
